@@ -5,6 +5,7 @@
 //! `grafeo-sim digest <property> [--seed N] [--runs N]`   (determinism self-check helper)
 
 mod checks;
+mod eng_codec;
 mod eng_disk;
 mod eng_hist;
 mod eng_rdf;
